@@ -132,8 +132,13 @@ def load_known() -> dict:
         return json.load(f)
 
 
+def _outdir() -> str:
+    """Where evidence/ and replays/ go: /verif, unless VERIF_OUT redirects (used by the mutant sweeps)."""
+    return os.environ.get("VERIF_OUT") or VERIF
+
+
 def write_replay(prop: str, entry: dict, engine: str) -> str:
-    d = os.path.join(VERIF, "replays")
+    d = os.path.join(_outdir(), "replays")
     os.makedirs(d, exist_ok=True)
     body = {
         "property": prop,
@@ -246,7 +251,7 @@ def run_check(
             known_seen[sig] += len(lst)
             continue
         entry = lst[0]
-        if minimise is not None:
+        if minimise is not None and time.time() - t0 < budget.get("minimise_deadline_s", 240) and len(new_violations) < 6:
             try:
                 entry = minimise(entry)
             except Exception:  # noqa: BLE001
@@ -284,7 +289,7 @@ def run_check(
         "wall_s": round(wall, 2),
         "violations": len(new_violations),
     }
-    evdir = os.path.join(VERIF, "evidence")
+    evdir = os.path.join(_outdir(), "evidence")
     os.makedirs(evdir, exist_ok=True)
     with open(os.path.join(evdir, f"{prop}.json"), "w") as f:
         json.dump(evidence, f, indent=1, sort_keys=False, default=repr)
